@@ -695,9 +695,13 @@ class Interp:
         """[elt for target in si] as an SSeq defined by a lambda over the index."""
         j = z3.Int(sym.fresh_name("j"))
         sub = Env({}, env)
-        with self.scope(z3.And(0 <= j, j < si.n)):
-            self.bind_target(target, si.getter(SInt(j)), sub)
-            v = self.eval(elt, sub)
+        self.pure += 1  # inside a quantified scope nothing may fork: build terms
+        try:
+            with self.scope(z3.And(0 <= j, j < si.n)):
+                self.bind_target(target, si.getter(SInt(j)), sub)
+                v = self.eval(elt, sub)
+        finally:
+            self.pure -= 1
         kind = sym.kind_of_value(v)
         a = z3.Lambda([j], sym._elem_term(v, kind))
         return SSeq(z3.simplify(si.n), a, kind, pytype)
